@@ -284,8 +284,13 @@ def braceInner (t : List Char) : List Char := (braceSlice t).getD []
 
 structure Writer where
   name : List Char
-  ceiling : Nat
+  ceiling : Nat                    -- `max_log_level()`
+  honoursCeiling : Bool := true    -- `FileLogWriter`/`SyslogWriter` check it in `write`; a custom
+                                   -- `LogWriter` decides itself (`false`: it emits what it receives)
 deriving DecidableEq, Repr
+
+/-- what an addressed writer does with a record it receives -/
+def Writer.emits (w : Writer) (lvl : Nat) : Bool := !w.honoursCeiling || decide (lvl ≤ w.ceiling)
 
 def lookup (ws : List Writer) (n : List Char) : Option Writer := ws.find? (·.name = n)
 
@@ -302,6 +307,14 @@ deriving DecidableEq, Repr
 
 def defaultName : List Char := "_Default".toList
 
+/-- one name of a brace list: `_Default` is not a writer; a registered name gets the record;
+    any other name is reported as a bad writer spec -/
+def deliverOf (ws : List Writer) (n : List Char) : Option Deliver :=
+  if n = defaultName then none
+  else match lookup ws n with
+    | some _ => some (Deliver.writer n)
+    | none => some (Deliver.unknown n)
+
 /-- `FlexiLogger::log` up to the hand-over to the primary writer / line filter.
     `msgMatches` = `regex.is_match(args)`, supplied by the caller. -/
 def route (spec : LogSpec) (ws : List Writer) (lvl : Nat) (target : List Char)
@@ -310,11 +323,7 @@ def route (spec : LogSpec) (ws : List Writer) (lvl : Nat) (target : List Char)
     enabled spec.filters lvl eff && (spec.regex.isNone || msgMatches)
   if target.head? = some '{' then
     let names := splitOn ',' (braceInner target)
-    let dels := names.filterMap (fun n =>
-      if n = defaultName then none
-      else match lookup ws n with
-        | some _ => some (Deliver.writer n)
-        | none => some (Deliver.unknown n))
+    let dels := names.filterMap (deliverOf ws)
     if names.contains defaultName then
       ⟨false, dels, passes (modulePath.getD [])⟩
     else ⟨false, dels, false⟩
@@ -329,6 +338,12 @@ def enabledQuery (spec : LogSpec) (ws : List Writer) (lvl : Nat) (target : List 
     then some true
     else some (enabled spec.filters lvl target)
   else some (enabled spec.filters lvl target)
+
+/-- names of the writers that actually emit the record -/
+def emitted (ws : List Writer) (r : RouteOut) (lvl : Nat) : List (List Char) :=
+  r.deliveries.filterMap (fun d => match d with
+    | .writer n => (lookup ws n).bind (fun w => if w.emits lvl then some n else none)
+    | .unknown _ => none)
 
 /-- `MultiWriter::write` duplication decision: `Duplicate` = 0 (None) .. 5 (Trace), 6 (All) -/
 def dupDecision (d : Nat) (lvl : Nat) : Bool :=
